@@ -481,7 +481,14 @@ func (s *Store) pushFile(target string, expected ocispec.Descriptor, content io.
 		return fmt.Errorf("failed to create file %s: %w", target, err)
 	}
 
-	return s.saveFile(fp, expected, content)
+	if err := s.saveFile(fp, expected, content); err != nil {
+		// do not leave the partially written file behind: the content is
+		// not in the store, and with DisableOverwrite the leftover would
+		// make every further attempt fail
+		_ = os.Remove(target)
+		return err
+	}
+	return nil
 }
 
 // pushDir saves content matching the descriptor to the target directory.
